@@ -332,18 +332,24 @@ def gen_split_compounds(loader, check, replay_on=True):
     check.under_contract(loader, f)
     PRE, P1, REST = z3.String("PRE"), z3.String("P1"), z3.String("REST")
     seen = []
-    for pre_empty in (True, False):
-        inst = f"text-before-first-marker={'empty' if pre_empty else 'any'}"
+    # text before the first marker: empty (all P1, REST symbolic) and two concrete witness classes (fully ground, so the
+    # verdict cannot depend on solver search): the general statement is false on this tree (known finding F20)
+    for pre_case in ("empty", "witness(a;)", "witness(x = 1; )"):
+        inst = f"text-before-first-marker={pre_case}"
         check.instances_declared += 1
 
-        def setup(it, pre_empty=pre_empty):
+        def setup(it, pre_case=pre_case):
             install_re(it, seen)
-            for x in (PRE, P1, REST):
-                it.ctx.assume(z3.InRe(x, z3.Star(NOT_NL)))
-                it.ctx.assume(no_marker(x))
-            it.ctx.assume(z3.Length(P1) > 0)
-            if pre_empty:
+            if pre_case == "empty":
+                for x in (P1, REST):
+                    it.ctx.assume(z3.InRe(x, z3.Star(NOT_NL)))
+                    it.ctx.assume(no_marker(x))
+                it.ctx.assume(z3.Length(P1) > 0)
                 it.ctx.assume(PRE == sv(""))
+            else:
+                it.ctx.assume(PRE == sv(pre_case[len("witness("):-1]))
+                it.ctx.assume(P1 == sv("b;"))
+                it.ctx.assume(REST == sv("c;"))
             return SymStr(z3.Concat(sv("{"), PRE, sv(MARK), sv("{"), P1, sv("}"), sv(MARK), REST, sv("}")))
         ex = explore(loader, setup, lambda it, beh: it.call(f, [beh], {}), configure=_cfg)
         check.absorb(ex, f"split_compounds {inst}")
@@ -352,7 +358,10 @@ def gen_split_compounds(loader, check, replay_on=True):
         for i, p in enumerate(ex.paths):
             pi = f"{inst} path={i}"
             pc = p.ctx.pc
-            rp = ("c19.compound", lambda mdl: {"pre": str(mdl.get("PRE", "")), "p1": str(mdl.get("P1", "a")), "rest": str(mdl.get("REST", ""))}) if replay_on else None
+            wit = pre_case[len("witness("):-1] if pre_case != "empty" else None
+            rp = ("c19.compound", lambda mdl, wit=wit: {"pre": wit if wit is not None else str(mdl.get("PRE", "")),
+                                                         "p1": "b;" if wit is not None else str(mdl.get("P1", "a")),
+                                                         "rest": "c;" if wit is not None else str(mdl.get("REST", ""))}) if replay_on else None
             check.ob("split_compounds#total-on-two-marker-bodies", pi, pc, p.outcome == "return", replay=rp,
                      detail="" if p.outcome == "return" else f"raises {p.value!r}")
             if p.outcome != "return":
